@@ -71,6 +71,10 @@ func worker(m fw.Monitor) int {
 		}
 	}
 	kf := fw.KnownIDs(loadKF(), m.ID())
+	// entries whose witness no longer fails suppress nothing (decided by the parent).
+	for _, id := range strings.Split(os.Getenv("VH_STALE"), ",") {
+		delete(kf, id)
+	}
 	c := fw.NewCtx(m.ID(), *flagTier, *flagSeed, *flagWorker, *flagWork, kf)
 	c.ReplaySeq = *flagSeq
 	c.Verbose = *flagVerbose
@@ -164,6 +168,7 @@ func parent(m fw.Monitor) int {
 	}
 
 	// 2. workers.
+	os.Setenv("VH_STALE", strings.Join(stale, ","))
 	exe, _ := os.Executable()
 	shards := []int{}
 	if *flagShards != "" {
